@@ -2,6 +2,7 @@
 
 from __future__ import annotations
 
+import copy
 import itertools
 from typing import Any
 
@@ -296,6 +297,9 @@ class C05(E1Check):
                     p = build_program(shape, "both", (d,), "plain", "before", pub)
                     if p is not None:
                         progs.append(dict(p, twice=True))
+                        if pub == "res":
+                            # ... and with the root's children declared by the CALLER'S configuration mapping (the same object both times)
+                            progs.append(dict(p, twice=True, twice_cfg=True))
         return progs
 
     def bound(self, tier: str, program: Any) -> int:
@@ -313,6 +317,9 @@ class C05(E1Check):
     async def main(self, env: Any, program: dict) -> None:
         from asphalt.core import Context, start_component
 
+        if program.get("twice_cfg"):
+            for c in program["tree"].get("children", []):
+                c["config_only"] = True
         tree = Tree(env, program["tree"])
         qpoints: list[int] = []
         env.quiescent_hooks.append(lambda: qpoints.append(len(env.trace)))
@@ -324,13 +331,19 @@ class C05(E1Check):
 
         if program.get("twice"):
             rounds: list = []
+            cfg: dict = {}
+            if program.get("twice_cfg"):
+                cfg = {"components": {c["alias"]: dict(c.get("kwargs", {}), type=tree.classes[c["alias"]]) for c in program["tree"].get("children", [])}}
+            cfg0 = copy.deepcopy(cfg)
             async with Context() as outer:
                 for rnd in (1, 2):
                     try:
                         async with Context() as sub:
                             with warnings.catch_warnings():
                                 warnings.simplefilter("ignore")
-                                await start_component(tree.root_class, {}, timeout=None)
+                                await start_component(tree.root_class, cfg, timeout=None)
+                            if cfg != cfg0:
+                                env.fail("ownership", f"round {rnd}: the caller's configuration changed from {cfg0!r} to {cfg!r}")
                             vis = {n: lab(v) for n, v in sub.get_resources(RA).items()}
                             vis_b = {n: lab(v) for n, v in sub.get_resources(RB).items()}
                         rounds.append((sorted(vis), sorted(vis_b)))
